@@ -1,5 +1,143 @@
-import OntVerif.Model.NeoInt
+import OntVerif.Proofs.NeoIntExec
+/-!
+# C13 — NeoVM integer opcodes compute exact integer results within bounds
+
+Model: `Model/NeoInt.lean` (`IntValue`, `execUnary/execBinary/execWithin`), tied to `vm/neovm/types/int_value.go` and
+`vm/neovm/executor.go` by `harness/cmd/c13`.  Specification: `Proofs/NeoIntSpec.lean` (`idealUnary/idealBinary/idealWithin`:
+`some r` = the exact result, which is within the size bound; `none` = must fault).  `valInt a` is the integer a VM value
+denotes, `obs` what an opcode leaves on the stack; `(·).toOption` forgets the kind of fault.
+
+`Variant.sound` is the code with the recorded deviations removed, `Variant.asShipped` mirrors the code as it is
+(with `fixes/C13-div-minint64.patch` applied: `DIV MinInt64 -1` is repaired, not recorded).
+-/
 namespace OntVerif.Props.C13
-open OntVerif.Model.NeoInt
-theorem C13_placeholder : bigNot 0 = -1 := by decide
+open OntVerif.Util OntVerif.Model.NeoInt OntVerif.Proofs.NeoIntSpec OntVerif.Proofs.NeoIntOps OntVerif.Proofs.NeoIntExec
+
+/-! ## The full statement -/
+
+/-- every opcode, on every operand in every representation: exact result when operands and result are in bounds,
+fault otherwise -/
+def C13_full_statement (v : Variant) : Prop :=
+  (∀ op a, ((execUnary v op a).map obs).toOption = idealUnary op (valInt a)) ∧
+  (∀ op a b, ((execBinary v op a b).map obs).toOption = idealBinary op (valInt a) (valInt b)) ∧
+  (∀ x a b, ((execWithin x a b).map obs).toOption = idealWithin (valInt x) (valInt a) (valInt b))
+
+theorem C13_exact_unary (op : UOp) (a : Val) :
+    ((execUnary .sound op a).map obs).toOption = idealUnary op (valInt a) := by
+  rw [execUnary_sem]; exact semUnary_sound op (valInt a)
+
+theorem C13_exact_binary (op : BOp) (a b : Val) :
+    ((execBinary .sound op a b).map obs).toOption = idealBinary op (valInt a) (valInt b) := by
+  rw [execBinary_sem]; exact semBinary_sound op (valInt a) (valInt b)
+
+theorem C13_exact_within (x a b : Val) :
+    ((execWithin x a b).map obs).toOption = idealWithin (valInt x) (valInt a) (valInt b) := by
+  rw [execWithin_sem]; exact semWithin_sound _ _ _
+
+/-- full strength for the sound variant -/
+theorem C13_sound : C13_full_statement .sound := ⟨C13_exact_unary, C13_exact_binary, C13_exact_within⟩
+
+/-! ## The code as shipped: exact outside the four recorded deviation classes -/
+
+/-- unary opcodes as shipped: exact unless `INVERT (2^256-1)` -/
+theorem C13_exact_unary_partial (op : UOp) (a : Val) (h : ¬ deviatesUnary op (valInt a)) :
+    ((execUnary .asShipped op a).map obs).toOption = idealUnary op (valInt a) := by
+  rw [execUnary_sem]; exact semUnary_asShipped op (valInt a) h
+
+/-- binary opcodes as shipped: exact unless `SHL 0 n` with `n > 256`, `SHR x n` with `n ≥ 2^64`, or a comparison with an
+operand beyond the size bound -/
+theorem C13_exact_binary_partial (op : BOp) (a b : Val) (h : ¬ deviatesBinary op (valInt a) (valInt b)) :
+    ((execBinary .asShipped op a b).map obs).toOption = idealBinary op (valInt a) (valInt b) := by
+  rw [execBinary_sem]; exact semBinary_asShipped op (valInt a) (valInt b) h
+
+/-- comparisons as shipped are exact for *all* operands (they never fault, also beyond the bound) -/
+theorem C13_cmp_asShipped_exact (op : BOp) (hc : op.isCmp = true) (a b : Val) :
+    execBinary .asShipped op a b = .ok (.bool (cmpResult op (valInt a) (valInt b))) := by
+  unfold execBinary
+  simp only [hc, if_true, cmpOperand_eq]
+
+/-- the four recorded deviations are real: each is a counterexample to the full statement for the code as shipped
+(these inputs are the replay lines of findings/C13.json) -/
+theorem C13_asShipped_cex_invert :
+    ((execUnary .asShipped .invert (.bigint 115792089237316195423570985008687907853269984665640564039457584007913129639935)).map obs).toOption
+      ≠ idealUnary .invert 115792089237316195423570985008687907853269984665640564039457584007913129639935 := by decide
+
+theorem C13_asShipped_cex_shl_zero :
+    ((execBinary .asShipped .shl (.int 0) (.int 257)).map obs).toOption ≠ idealBinary .shl 0 257 := by
+  rw [← semBinary_sound]; decide
+
+theorem C13_asShipped_cex_shr_amount :
+    ((execBinary .asShipped .shr (.int 5) (.bigint 18446744073709551616)).map obs).toOption
+      ≠ idealBinary .shr 5 18446744073709551616 := by
+  rw [← semBinary_sound]; decide   -- (the ideal value ⌊5 / 2^(2^64)⌋ = 0 is obtained through the proved-equal `.sound` semantics)
+
+theorem C13_asShipped_cex_cmp :
+    ((execBinary .asShipped .lt (.bigint 115792089237316195423570985008687907853269984665640564039457584007913129639936) (.int 0)).map obs).toOption
+      ≠ idealBinary .lt 115792089237316195423570985008687907853269984665640564039457584007913129639936 0 := by decide
+
+theorem C13_asShipped_counterexample : ¬ C13_full_statement .asShipped := by
+  intro ⟨_, h, _⟩
+  exact C13_asShipped_cex_shl_zero (h .shl (.int 0) (.int 257))
+
+/-! ## Representation independence -/
+
+/-- executor level, both variants, fault kinds included: the outcome depends only on the integers the operands denote
+(int64 / big integer / minimal or sign-padded byte array / bool) -/
+theorem C13_repr_indep_unary (v : Variant) (op : UOp) (a a' : Val) (h : valInt a = valInt a') :
+    (execUnary v op a).map obs = (execUnary v op a').map obs := by
+  rw [execUnary_sem, execUnary_sem, h]
+
+theorem C13_repr_indep_binary (v : Variant) (op : BOp) (a a' b b' : Val)
+    (ha : valInt a = valInt a') (hb : valInt b = valInt b') :
+    (execBinary v op a b).map obs = (execBinary v op a' b').map obs := by
+  rw [execBinary_sem, execBinary_sem, ha, hb]
+
+theorem C13_repr_indep_within (x x' a a' b b' : Val)
+    (hx : valInt x = valInt x') (ha : valInt a = valInt a') (hb : valInt b = valInt b') :
+    (execWithin x a b).map obs = (execWithin x' a' b').map obs := by
+  rw [execWithin_sem, execWithin_sem, hx, ha, hb]
+
+/-- `IntValue` level: machine-size (`small`) and big-integer (`big`) storage of equal values give equal results, for
+every operation of `int_value.go` (also for non-normalised `big` values that hold an int64) -/
+theorem C13_repr_indep_intvalue (v : Variant) (op : BOp) (a a' b b' : IntValue)
+    (ha : a.toInt = a'.toInt) (hb : b.toInt = b'.toInt) :
+    (arithFn v op a b).map IntValue.toInt = (arithFn v op a' b').map IntValue.toInt := by
+  rw [arithFn_exact, arithFn_exact, ha, hb]
+
+theorem C13_repr_indep_intvalue_unary (a a' : IntValue) (h : a.toInt = a'.toInt) :
+    a.not.toInt = a'.not.toInt ∧ a.abs.toInt = a'.abs.toInt ∧ a.sign = a'.sign ∧ a.isZero = a'.isZero ∧
+    ∀ b b' : IntValue, b.toInt = b'.toInt → a.cmp b = a'.cmp b' := by
+  refine ⟨by rw [not_exact, not_exact, h], by rw [abs_exact, abs_exact, h], by rw [sign_exact, sign_exact, h], ?_, ?_⟩
+  · rw [Bool.eq_iff_iff, isZero_iff, isZero_iff, h]
+  · intro b b' hb; rw [cmp_exact, cmp_exact, h, hb]
+
+/-- the overflow-checked int64 fast paths never return a wrapped value: whenever `ok`, the result is the exact integer -/
+theorem C13_fast_path_exact (x y : BitVec 64) :
+    ((add64 x y).2 = true → (add64 x y).1.toInt = x.toInt + y.toInt) ∧
+    ((sub64 x y).2 = true → (sub64 x y).1.toInt = x.toInt - y.toInt) ∧
+    ((mul64 x y).2 = true → (mul64 x y).1.toInt = x.toInt * y.toInt) :=
+  ⟨add64_exact x y, sub64_exact x y, mul64_exact x y⟩
+
+/-! ## What AND / OR / XOR / INVERT mean: two's complement, bit by bit (`bitAt z k = ⌊z / 2^k⌋ mod 2`) -/
+theorem C13_bitwise_meaning (x y : Int) (k : Nat) :
+    bitAt (bigAnd x y) k = (bitAt x k && bitAt y k) ∧
+    bitAt (bigOr x y) k = (bitAt x k || bitAt y k) ∧
+    bitAt (bigXor x y) k = (bitAt x k ^^ bitAt y k) ∧
+    bitAt (-x - 1) k = !bitAt x k :=
+  ⟨bitAt_bigAnd x y k, bitAt_bigOr x y k, bitAt_bigXor x y k, bitAt_not x k⟩
+
+/-! ### Non-vacuity and boundary witnesses -/
+-- the repaired DIV: MinInt64 / -1 = 2^63 (a big integer), in every representation
+example : execBinary .asShipped .div (.int (BitVec.intMin 64)) (.int (-1)) = .ok (.bigint 9223372036854775808) := by decide
+example : execBinary .asShipped .div (.bigint (-9223372036854775808)) (.bytes [0xff]) = .ok (.bigint 9223372036854775808) := by decide
+example : execBinary .asShipped .mod (.int (BitVec.intMin 64)) (.int (-1)) = .ok (.int 0) := by decide
+example : execBinary .asShipped .div (.int 7) (.int (-2)) = .ok (.int (-3)) ∧ execBinary .asShipped .mod (.int (-7)) (.int 2) = .ok (.int (-1)) := by decide
+example : execBinary .asShipped .mul (.int 3037000500) (.int 3037000500) = .ok (.bigint 9223372037000250000) := by decide
+example : execBinary .asShipped .add (.bigint 115792089237316195423570985008687907853269984665640564039457584007913129639935) (.int 1) = .error .oversize := by decide
+example : execBinary .asShipped .and (.int (-1)) (.bytes [0xff, 0x00]) = .ok (.int 255) := by decide
+example : ¬ deviatesBinary .shl 0 256 ∧ ¬ deviatesBinary .add 5 7 ∧ ¬ deviatesUnary .invert 5 := by
+  unfold deviatesBinary deviatesUnary; decide
+example : idealBinary .shl 1 255 = some (.int (2 ^ 255)) ∧ idealBinary .shl 1 256 = none := by decide
+example : valInt (.bytes [0x05, 0x00]) = valInt (.int 5) ∧ valInt (.bool true) = valInt (.bigint 1) := by decide
+
 end OntVerif.Props.C13
